@@ -362,6 +362,8 @@ type SimRunner struct {
 	mu     sync.Mutex
 	Kills  int
 	Starts int
+	// StartFailsAfterLaunch: Start launches the process, then returns an error.
+	StartFailsAfterLaunch bool
 }
 
 func NewSimRunner(r *Run, cmd *simexec.Cmd, tmpDir string, xlate bool) (*SimRunner, error) {
@@ -384,6 +386,14 @@ func (s *SimRunner) Start(ctx ctxT) error {
 	s.mu.Lock()
 	s.Starts++
 	s.mu.Unlock()
+	if s.StartFailsAfterLaunch {
+		// a runner whose Start launches the workload and then reports a failure
+		// (e.g. a container that came up while a later set-up step failed)
+		if err := s.cmd.Start(); err != nil {
+			return err
+		}
+		return fmt.Errorf("runner: post-launch set-up failed")
+	}
 	if s.xlate {
 		// container-style launch: the plugin has its own root and sees the
 		// host's socket directory at /mnt/sock
@@ -570,4 +580,32 @@ func (r *Run) SpawnRaw(name, path string, env []string, opts *k.SpawnOpts) (*Raw
 	go io.Copy(rp.Stdout, or)
 	go io.Copy(rp.Stderr, er)
 	return rp, nil
+}
+
+// WatchPlaintext installs a wire sniffer on every socket of the run: if the
+// configuration asks for transport security, no protocol bytes may ever appear
+// in clear on any socket - neither the HTTP/2 client preface (gRPC, also inside
+// yamux frames) nor net/rpc method names.
+func (r *Run) WatchPlaintext(ctx string) {
+	markers := [][]byte{[]byte("PRI * HTTP/2.0"), []byte("Plugin.Do"), []byte("Control.Ping"), []byte("Dispenser.Dispense")}
+	tails := map[string][]byte{}
+	var mu sync.Mutex
+	r.W.OnConnWrite = func(e *k.Endpoint, data []byte) {
+		if o := e.Owner(); o != nil && o.Name == "intruder" {
+			return // what an attacker sends in clear is its own business
+		}
+		mu.Lock()
+		defer mu.Unlock()
+		key := e.Name()
+		buf := append(append([]byte(nil), tails[key]...), data...)
+		for _, m := range markers {
+			if bytes.Contains(buf, m) {
+				r.Violate("plaintext-on-the-wire", ctx+" marker="+string(m), fmt.Sprintf("socket %s (%s) carried %q in clear although transport security is configured", key, e.ListenerKey(), m))
+			}
+		}
+		if len(buf) > 32 {
+			buf = buf[len(buf)-32:]
+		}
+		tails[key] = buf
+	}
 }
